@@ -845,6 +845,9 @@ static int find_iter(int nid, int how, struct cds_lfht_iter *it)
 	return 0;
 }
 
+static int mut_succ_every;	/* next do_traverse(): every n-th step removes / replaces the iterator's saved successor */
+static uint64_t tot_succ_del, tot_succ_replace;
+
 /* full traversal: every stored node exactly once; optionally delete every del_every-th visited node */
 static int do_traverse(int del_every)
 {
@@ -891,6 +894,52 @@ static int do_traverse(int del_every)
 			deleted++;
 			if (expect <= 40)
 				slog("(del)");
+		}
+		if (mut_succ_every && (visited % mut_succ_every) == 0 && !((unsigned long) it.next & 2UL)) {
+			/* The iterator has saved a pointer to the successor.  Remove or replace exactly that node (allowed:
+			 * same thread, same read-side section): cds_lfht_next() must not hand out a node that is no longer
+			 * stored, and must hand out the replacement. */
+			struct cds_lfht_node *succ = (struct cds_lfht_node *) ((unsigned long) it.next & ~7UL);
+			int sid = succ ? map_find(succ) : -1;
+			if (sid >= 0 && S.meta[sid].state == NS_LIVE && S.meta[sid].seen != st) {
+				struct meta *sm = &S.meta[sid];
+				if (vp_rand_n(&S.rng, 2)) {
+					tot_ops[OP_DEL]++;
+					API_BEGIN("del");
+					int ret = cds_lfht_del(S.ht, succ);
+					API_END();
+					if (ret) {
+						rcu_read_unlock();
+						fail("lfht-seq:del:failed-on-live", "cds_lfht_del of live node n%d (the traversal's saved successor) returned %d", sid, ret);
+						return -1;
+					}
+					m_retire(sid);
+					expect--;
+					tot_succ_del++;
+					if (expect <= 40)
+						slog("(del-succ n%d)", sid);
+				} else {
+					struct cds_lfht_iter rit;
+					int rid = m_new(sm->kidx);
+					struct meta *rm = &S.meta[rid];
+					rit.node = succ;
+					rit.next = rcu_dereference(succ->next);
+					tot_ops[OP_REPLACE]++;
+					API_BEGIN("replace");
+					int ret = cds_lfht_replace(S.ht, &rit, rm->hash, match_fn, &rm->key, &rm->p->n);
+					API_END();
+					if (ret) {
+						rcu_read_unlock();
+						fail("lfht-seq:replace:failed-on-live", "cds_lfht_replace of live node n%d (the traversal's saved successor) returned %d", sid, ret);
+						return -1;
+					}
+					m_retire(sid);
+					m_set_live(rid);
+					tot_succ_replace++;
+					if (expect <= 40)
+						slog("(repl-succ n%d->n%d)", sid, rid);
+				}
+			}
 		}
 		API_BEGIN("next");
 		cds_lfht_next(S.ht, &it);
@@ -1572,7 +1621,9 @@ static int one_op(void)
 		r = do_lookup(k);
 		break;
 	case OP_TRAVERSE:
+		mut_succ_every = vp_rand_n(&S.rng, 3) == 0 ? 1 + (int) vp_rand_n(&S.rng, 4) : 0;
 		r = do_traverse(vp_rand_n(&S.rng, 5) == 0 ? 1 + (int) vp_rand_n(&S.rng, 4) : 0);
+		mut_succ_every = 0;
 		break;
 	case OP_COUNT:
 		r = do_count();
@@ -1785,6 +1836,8 @@ int main(int argc, char **argv)
 	vp_quar_drain(&quar);
 #endif
 	vp_counter_add("evaluations", tot_evals);
+	vp_counter_add("traversal_saved_successor_deleted", tot_succ_del);
+	vp_counter_add("traversal_saved_successor_replaced", tot_succ_replace);
 	vp_counter_add("nontrivial", tot_nontrivial);
 	vp_counter_add("sequences", tot_seqs);
 	vp_counter_add("tables_created", tot_tables);
